@@ -284,6 +284,9 @@ def _for_variants(ck, fn, body):
         _TAG[0] = f" params@{lab}" if lab else ""
         try:
             body()
+        except R.Unsupported as e:
+            ck.not_encoded[f"{fn.__name__}{_TAG[0]}"] = str(e)[:160]
+            ck.inconclusive.append(f"{fn.__name__}{_TAG[0]}: not encodable ({str(e)[:100]})")
         finally:
             _EXTRA.pop(fn.__name__, None)
             _TAG[0] = ""
